@@ -2,7 +2,7 @@ SPECIFICATION Spec
 CONSTANTS
   Counts = {0, 1, 2, 3}
   Dump = TRUE
-  Only = ""
+  Only = {}
 INVARIANT GenParseAgree
 INVARIANT LayoutMonotone
 INVARIANT BuildParseRoundTrip
